@@ -139,6 +139,7 @@ func (x *extractor) extract(t Term, typ types.Type, depth int) *CV {
 		}
 	case *types.Slice:
 		lt, rt := "(sl-len "+t.S+")", "(sl-ref "+t.S+")"
+		x.fix = append(x.fix, "(assert (wf-slice "+t.S+"))")
 		vals := x.values([]string{lt, rt})
 		lv, _, ok := parseNum(vals[lt])
 		rv, _, _ := parseNum(vals[rt])
